@@ -118,6 +118,17 @@ def snapshot_cases():
                                     A.While(A.Bin("<", V("i"), I(2)), [A.OpAssign("+", V("i"), I(1)), A.For(V("b"), S("xy"), [A.If([(A.Bin("==", A.Index(V("b"), I(0)), I(0)), [A.Continue()])], None), P(V("b"))]), P(V("i"))])]
     cases["return_value_through_loops"] = [A.FuncStmt("f", [], False, [A.While(A.Bool(True), [A.For(V("x"), A.lst(I(1)), [A.Block([A.If([(A.Bool(True), [A.Return(A.lst(S("v"), V("x")))])], None)]), P(S("WRONG"))]), P(S("WRONG"))]), P(S("WRONG"))]), P(A.call("f"))]
     cases["closure_break_in_called_fn"] = [A.FuncStmt("f", [], False, [A.Break()]), A.While(A.Bool(True), [P(S("in loop")), A.ExprStmt(A.call("f")), P(S("WRONG")), A.Break()])]
+    W = lambda: [P(S("WRONG"))]
+    cases["empty_taken_branch"] = [A.If([(A.Bool(True), [])], W()), P(S("a")),
+                                   A.If([(A.Bool(False), W()), (A.Bool(True), [])], W()), P(S("b")),
+                                   A.If([(A.Bool(False), [])], [P(S("else ran"))]), P(S("c")),
+                                   A.If([(A.Bool(True), [])], None), P(S("d")),
+                                   A.For(V("_"), A.lst(I(1), I(2)), [A.If([(A.Bool(True), [])], [A.Break()]), P(S("iter"))]),
+                                   A.Declare(V("n"), I(0)), A.While(A.Bin("<", V("n"), I(2)), [A.OpAssign("+", V("n"), I(1)), A.If([(A.Bin("==", V("n"), I(1)), [])], [P(S("second"))])]),
+                                   A.FuncStmt("f", [], False, [A.If([(A.Bool(True), [])], [A.Return(S("WRONG"))]), A.Return(S("ok"))]), P(A.call("f"))]
+    cases["empty_bodies"] = [A.For(V("_"), A.lst(I(1), I(2)), []), P(S("a")), A.Declare(V("n"), I(0)), A.While(A.Bin("<", V("n"), I(0)), []), P(S("b")),
+                             A.FuncStmt("e", [], False, []), P(A.call("e")), A.Block([A.Block([P(S("c"))])]), A.For(V("_"), A.lst(), W()), A.For(V("_"), S(""), W()), A.For(V("_"), A.obj(), W()),
+                             A.For(V("_"), A.Range(I(2), I(2)), W()), P(S("d"))]
     return cases
 
 
